@@ -70,7 +70,8 @@ def run_one(name, tier):
         sh("git reset -q --hard", cwd=REPO)
         sh("git clean -fdq pyrex tests", cwd=REPO)
     # evidence files must describe the unchanged tree: re-run the checks now that the patch is undone
-    for p in [prop] + meta.get("also_check", []):
+    # (SEEDED_SKIP_CLEAN=1: regression runs in scratch copies of /verif, whose evidence files are thrown away)
+    for p in ([] if os.environ.get("SEEDED_SKIP_CLEAN") == "1" else [prop] + meta.get("also_check", [])):
         rc, out = sh("/venv/bin/python -W ignore harness/check.py %s --tier quick" % p, cwd=VERIF)
         res["clean_tree_after_undo_rc_%s" % p] = rc
     res["caught"] = any(v.get("rc") == 1 for k, v in res.items() if k.startswith("check_") and isinstance(v, dict))
